@@ -43,7 +43,12 @@ GRAPH_BASE = f"https://{GRAPH_HOST}/v1.0"
 HTTP_CODES = (400, 401, 403, 404, 429, 500, 503)
 KINDS_HTTP = tuple(f"http{c}" for c in HTTP_CODES)
 # the fault kinds the property quantifies over (all of them must end in the client's own error family)
-KINDS_CORE = KINDS_HTTP + ("urlerror", "truncjson", "nonjson", "ret500", "ret404")
+# "non-2xx status returned without an exception" (a request_func that neither raises for error statuses nor
+# follows redirects, a caching proxy answering 304, an interim 1xx handed through): one status per class outside
+# 2xx, incl. the value next to the 2xx range; body per status in _RET_BODY (error envelope / empty / HTML)
+RET_CODES = (500, 404, 100, 300, 302, 304)
+KINDS_RET = tuple(f"ret{c}" for c in RET_CODES)
+KINDS_CORE = KINDS_HTTP + ("urlerror", "truncjson", "nonjson") + KINDS_RET
 # labelled separately: well-formed JSON of the wrong top-level type
 KINDS_WRONGTYPE = ("wrongtype_list", "wrongtype_null", "wrongtype_str", "wrongtype_num")
 # labelled separately: further transport failures a urlopen-shaped transport really produces
@@ -51,10 +56,11 @@ KINDS_EXTRA = ("nonjson_nonutf8", "raise_timeout", "raise_disconnect", "read_inc
 ALL_KINDS = KINDS_CORE + KINDS_WRONGTYPE + KINDS_EXTRA
 
 _BAD_URL_CHAR = re.compile(r"[\x00-\x20\x7f]|[^\x00-\x7f]")
-_HTTP_MSG = {400: "Bad Request", 401: "Unauthorized", 403: "Forbidden", 404: "Not Found", 429: "Too Many Requests",
+_HTTP_MSG = {100: "Continue", 300: "Multiple Choices", 302: "Found", 304: "Not Modified", 400: "Bad Request", 401: "Unauthorized", 403: "Forbidden", 404: "Not Found", 429: "Too Many Requests",
              500: "Internal Server Error", 503: "Service Unavailable", 405: "Method Not Allowed"}
 _GRAPH_CODE = {400: "invalidRequest", 401: "InvalidAuthenticationToken", 403: "accessDenied", 404: "itemNotFound",
                429: "activityLimitReached", 500: "generalException", 503: "serviceNotAvailable", 405: "invalidRequest"}
+_RET_BODY = {100: "envelope", 300: "envelope", 302: "html", 304: "empty"}     # default: error envelope
 _WRONGTYPE_BODY = {"wrongtype_list": b'[{"id": "x", "folder": {}}]', "wrongtype_null": b"null",
                    "wrongtype_str": b'"ok"', "wrongtype_num": b"42"}
 
@@ -529,10 +535,14 @@ class GraphSim:
             return self._respond(idx, url, 200, b"<html><head><title>Bad Gateway</title></head><body>upstream error</body></html>", "text/html")
         if kind == "nonjson_nonutf8":
             return self._respond(idx, url, 200, "<html><body>Zugriff verweigert – ungültige Anfrage</body></html>".encode("cp1252"), "text/html; charset=windows-1252")
-        if kind == "ret500":
-            return self._respond(idx, url, 500, self._err_payload(500, "injected fault"))
-        if kind == "ret404":
-            return self._respond(idx, url, 404, self._err_payload(404, "injected fault"))
+        if kind in KINDS_RET:
+            code = int(kind[3:])
+            body = _RET_BODY.get(code, "envelope")
+            if body == "envelope":       # a JSON *object*: a client that takes the answer for a success finds no "value"/"id"/"access_token" in it
+                return self._respond(idx, url, code, self._err_payload(code, "injected fault"))
+            if body == "empty":
+                return self._respond(idx, url, code, b"")
+            return self._respond(idx, url, code, b"<html><head><title>Object moved</title></head><body><h2>Object moved to <a href=\"https://login.example.invalid/\">here</a>.</h2></body></html>", "text/html")
         if kind in _WRONGTYPE_BODY:
             return self._respond(idx, url, 200, _WRONGTYPE_BODY[kind])
         if kind in ("read_incomplete", "read_timeout"):
